@@ -377,6 +377,60 @@ theorem dedupFirstSeen_nodup (reqs : List σ) : (dedupFirstSeen reqs).Nodup :=
 
 end Interner
 
+/-! ### Reviewed order-exposing uses -/
+
+section Reviewed
+
+/-- A left fold visits a permutation of the list with the same result when the steps commute. -/
+theorem foldl_perm_of_comm {α β : Type} (f : β → α → β) {l₁ l₂ : List α} (p : l₁.Perm l₂) :
+    (∀ a ∈ l₁, ∀ b ∈ l₁, ∀ s, f (f s a) b = f (f s b) a) → ∀ s, l₁.foldl f s = l₂.foldl f s := by
+  induction p with
+  | nil => intro _ s; rfl
+  | cons x _ ih =>
+    intro hc s
+    simp only [List.foldl_cons]
+    exact ih (fun a ha b hb => hc a (List.mem_cons_of_mem _ ha) b (List.mem_cons_of_mem _ hb)) _
+  | swap x y l =>
+    intro hc s
+    simp only [List.foldl_cons]
+    rw [hc y (by simp) x (by simp) s]
+  | trans p₁ _ ih₁ ih₂ =>
+    intro hc s
+    rw [ih₁ hc s]
+    exact ih₂ (fun a ha b hb => hc a (p₁.mem_iff.mpr ha) b (p₁.mem_iff.mpr hb)) s
+
+theorem inj_of_nodup_map {α β : Type} (g : α → β) :
+    ∀ {l : List α}, (l.map g).Nodup → ∀ a ∈ l, ∀ b ∈ l, g a = g b → a = b := by
+  intro l
+  induction l with
+  | nil => intro _ a ha; cases ha
+  | cons x xs ih =>
+    intro h a ha b hb e
+    simp only [List.map_cons, List.nodup_cons] at h
+    rcases List.mem_cons.mp ha with ha' | ha' <;> rcases List.mem_cons.mp hb with hb' | hb'
+    · rw [ha', hb']
+    · have : g x ∈ xs.map g := List.mem_map.mpr ⟨b, hb', by rw [← e, ha']⟩
+      exact absurd this h.1
+    · have : g x ∈ xs.map g := List.mem_map.mpr ⟨a, ha', by rw [e, hb']⟩
+      exact absurd this h.1
+    · exact ih h.2 a ha' b hb' e
+
+theorem applyRetain_comm (norm : String → String) (d : String → Option (List (Option Nat)))
+    (a b : String × Nat) (h : a = b ∨ norm a.1 ≠ norm b.1) :
+    applyRetain norm (applyRetain norm d a) b = applyRetain norm (applyRetain norm d b) a := by
+  rcases h with h | h
+  · rw [h]
+  · funext key
+    simp only [applyRetain]
+    by_cases ka : key = norm a.1 <;> by_cases kb : key = norm b.1
+    · exact absurd (ka.symm.trans kb) h
+    · simp [ka, h]
+    · have : ¬ norm b.1 = norm a.1 := fun e => h e.symm
+      simp [kb, this]
+    · simp [ka, kb]
+
+end Reviewed
+
 /-! ### PouIdMap -/
 
 section Pou
